@@ -342,6 +342,7 @@ static int do_op(int which, inst_t *I, const char *op, int *perr) {
         }
         LEAVE;
         I->c = c; failed = (c == NULL); fprintf(rf, "%s", c ? "obj" : "NULL");
+        if (!c && I->mem) { __real_free(I->mem); I->mem = NULL; }
         memset(&I->tcur, 0, sizeof I->tcur); memset(&I->hcur, 0, sizeof I->hcur); memset(&I->lcur, 0, sizeof I->lcur); memset(&I->scur, 0, sizeof I->scur);
         memset(&I->vcur, 0, sizeof I->vcur); I->acur = 0;
         return failed;
